@@ -165,6 +165,29 @@ func init() {
 	})
 }
 
+func init() {
+	hx.RegisterReplayer("C02/sema", func(r *hx.Run, data json.RawMessage) {
+		var c c06Case
+		if err := json.Unmarshal(data, &c); err != nil {
+			panic(err)
+		}
+		first := ""
+		for i := 0; i < 200; i++ {
+			errs, err := semaCheck(c.Env, c.Src)
+			if err != nil {
+				return
+			}
+			out := strings.Join(errMsgs(errs), " | ")
+			if i == 0 {
+				first = out
+			} else if out != first {
+				r.Report("C02/sema-result-varies-between-runs", fmt.Sprintf("checking %q gives different errors on repetition: %q vs %q", c.Src, first, out), "C02/sema", &c)
+				return
+			}
+		}
+	})
+}
+
 const wfPath = ".github/workflows/"
 
 func oneFile(kind, src string) *c02Case {
@@ -384,6 +407,61 @@ func TestC02(t *testing.T) {
 				c.Targets = append(c.Targets, name)
 			}
 			run(rt, c, true)
+		})
+		// the semantic checker as a library: same typing environment + expression => same errors
+		r.Check(t, "sema-api-repeat", hx.N(6000, 150000), func(rt *rapid.T) {
+			env := &tenv{Ctx: map[string]*tyd{}}
+			for i := 0; i < rapid.IntRange(1, 3).Draw(rt, "nctx"); i++ {
+				name := rapid.SampledFrom(c06Contexts).Draw(rt, "ctxname")
+				if _, ok := env.Ctx[name]; ok {
+					continue
+				}
+				env.Ctx[name] = genObj(rt, 3, 1)
+				env.Names = append(env.Names, name)
+			}
+			sort.Strings(env.Names)
+			g := &c06gen{t: rt, env: env, visited: map[*tyd]bool{}}
+			src := g.expr(3)
+			if rapid.IntRange(0, 2).Draw(rt, "mergecase") == 0 {
+				// merging a map-typed object with an object that has several differently typed members
+				scalar := func() *tyd {
+					return &tyd{Kind: rapid.SampledFrom([]string{"str", "num", "bool", "null", "any"}).Draw(rt, "mscalar")}
+				}
+				q := &tyd{Kind: "obj", Props: map[string]*tyd{}, Open: rapid.IntRange(0, 3).Draw(rt, "qopen") == 0}
+				for i := 0; i < rapid.IntRange(2, 4).Draw(rt, "qn"); i++ {
+					n := string(rune('a' + i))
+					q.Props[n] = scalar()
+					q.Order = append(q.Order, n)
+				}
+				pm := &tyd{Kind: "map", Elem: scalar()}
+				root := &tyd{Kind: "obj", Props: map[string]*tyd{"p": {Kind: "obj", Props: map[string]*tyd{"m": pm}, Order: []string{"m"}}, "q": {Kind: "obj", Props: map[string]*tyd{"m": q}, Order: []string{"m"}}}, Order: []string{"p", "q"}}
+				env = &tenv{Ctx: map[string]*tyd{"matrix": root}, Names: []string{"matrix"}}
+				op := rapid.SampledFrom([]string{"&&", "||"}).Draw(rt, "mop")
+				a, b := "p", "q"
+				if rapid.Bool().Draw(rt, "mswap") {
+					a, b = b, a
+				}
+				src = "(matrix." + a + " " + op + " matrix." + b + ").m" + rapid.SampledFrom([]string{".zz.y", "['zz']['y']", ".zz[0]", ".zz == 1", ".a.x"}).Draw(rt, "msuffix")
+			}
+			first := ""
+			r.Eval()
+			r.Class("sema-api-repeat")
+			for i := 0; i < 12; i++ {
+				errs, err := semaCheck(env, src)
+				if err != nil {
+					return
+				}
+				out := strings.Join(errMsgs(errs), " | ")
+				if i == 0 {
+					first = out
+					if out != "" {
+						r.NT(src, envString(env))
+					}
+				} else if out != first {
+					c := &c06Case{Env: env, Src: src, Loose: env, What: "repeat"}
+					r.Fail(rt, "C02/sema-result-varies-between-runs", fmt.Sprintf("checking %q under %s gives different errors on repetition:\n run 1: %s\n run %d: %s", src, envString(env), first, i+1, out), "C02/sema", c)
+				}
+			}
 		})
 		// several repositories (own configuration, local actions, reusable workflows) in one invocation
 		r.Check(t, "multi-repository", hx.N(60, 2000), func(rt *rapid.T) {
